@@ -149,7 +149,13 @@ static inline double cmb_random_uniform(const double min, const double max)
 {
     cmb_assert_release(min < max);
 
-    const double r = min + (max - min) * cmb_random();
+    const double range = max - min;
+    const double u = cmb_random();
+
+    /* The width of the interval is not a double if the limits are of opposite
+     * sign and huge. Weigh the limits instead, neither term can overflow. */
+    const double r = (isfinite(range)) ? min + range * u
+                                       : min * (1.0 - u) + max * u;
     cmb_assert_debug((r >= min) && (r <= max));
 
     return r;
@@ -694,7 +700,9 @@ static inline double cmb_random_rayleigh(const double s)
 
     const double x = cmb_random_normal(0.0, s);
     const double y = cmb_random_normal(0.0, s);
-    const double r = sqrt(x * x + y * y);
+    /* Not sqrt(x * x + y * y): the squares leave the range of a double for
+     * scales beyond 1e154 or below 1e-162 although the result does not */
+    const double r = hypot(x, y);
 
     cmb_assert_debug(r >= 0.0);
     return r;
